@@ -55,7 +55,7 @@ Theorem create_rows : forall auto s k a unk s' ob, reachable auto s ->
   born s' = born s ++ [(oid ob, k)].
 Proof.
   intros auto s k a unk s' ob Hre H. destruct (reach_repr auto s Hre) as [os Hr].
-  cbn [step] in H. destruct (creat auto (rev (chain k)) None a unk s) as [s1 [x|id]] eqn:Hc; [inversion H|].
+  cbn [step] in H. unfold do_create in H. destruct (creat auto (rev (chain k)) None a unk s) as [s1 [x|id]] eqn:Hc; [inversion H|].
   destruct (create_repr_ok _ _ _ _ _ _ _ _ Hr Hc) as [Hr1 [Hid Hrf]].
   pose proof (creat_ok _ _ _ _ _ _ _ Hc) as [_ [Hsq [_ [Hb Ht]]]].
   set (s2 := set_born s1 (born s1 ++ [(id, k)])) in *.
@@ -75,7 +75,7 @@ Theorem failed_create_clean : forall auto s k a unk s' x, reachable auto s ->
   (forall l, tab s' l = tab s l) /\ born s' = born s /\ refs s' = refs s.
 Proof.
   intros auto s k a unk s' x Hre Ha Hz H. destruct (reach_repr auto s Hre) as [os Hr].
-  cbn [step] in H. destruct (creat auto (rev (chain k)) None a unk s) as [s1 [e|id]] eqn:Hc.
+  cbn [step] in H. unfold do_create in H. destruct (creat auto (rev (chain k)) None a unk s) as [s1 [e|id]] eqn:Hc.
   - inversion H; subst s1 x; clear H.
     assert (Hle : forall l r, In r (tab s l) -> rid r <= seq s) by (intros l r; apply (repr_ids_le s os); exact Hr).
     pose proof (creat_err auto k a unk s s' e Hle Hc) as [Hrf [Hb [_ [_ T2]]]]. auto.
@@ -250,4 +250,34 @@ Theorem reachable_step : forall auto s o, reachable auto s -> trigger auto s o =
   reachable auto (fst (step auto s o)).
 Proof.
   intros auto s o [ops [Hc ->]] Hg. exists (ops ++ [o]). rewrite clean_app, run_app, Hc. cbn. rewrite Hg. auto.
+Qed.
+
+(* ---- explicit ids *)
+Theorem create_id_subclass : forall auto s k a unk i, parent k <> None ->
+  step auto s (CreateId k a unk i) = step auto s (Create k a unk).
+Proof. intros auto s k a unk i H. destruct k; try reflexivity. exfalso. apply H. reflexivity. Qed.
+
+Theorem create_id_root : forall auto s a unk i s' r, reachable auto s ->
+  step auto s (CreateId KA a unk i) = (s', r) ->
+  (exists x, r = RErr x /\ s' = s) \/
+  (r = RObj (mkobj i KA [argval a KA]) /\ has i (tab s KA) = false /\
+   tab s' KA = tab s KA ++ [mkrow i (argval a KA) None] /\ (forall l, l <> KA -> tab s' l = tab s l) /\
+   born s' = born s ++ [(i, KA)] /\ seq s' = Z.max (seq s) i /\ refs s' = refs s).
+Proof.
+  intros auto s a unk i s' r Hre H. destruct (reach_repr auto s Hre) as [os Hr].
+  cbn [step parent] in H. destruct (root_create_id a unk i s) as [x|s1] eqn:Hc.
+  - left. inversion H. eauto.
+  - right. pose proof (root_create_repr KA a unk i s s1 os Hr eq_refl Hc) as Hr1.
+    assert (Hnd : NoDup (aids (os ++ [newo i KA a]))) by (destruct Hr1; assumption).
+    assert (Hf : afind i (os ++ [newo i KA a]) = Some (newo i KA a)).
+    { apply (afind_in _ (newo i KA a) Hnd). apply in_or_app. right. left. reflexivity. }
+    rewrite (get_obj_repr _ _ KA i (newo i KA a) Hr1 Hf eq_refl) in H. inversion H; subst s' r; clear H.
+    unfold root_create_id in Hc. destruct unk; [discriminate|].
+    assert (Ev : argval a KA = match validate (arg_of a KA) with inr v => v | inl _ => None end) by reflexivity.
+    destruct (validate (arg_of a KA)) as [e|v]; [discriminate|]. unfold sql_insert in Hc.
+    destruct (notnull KA && isnone v); [discriminate|].
+    destruct (taken v None (tab s KA)); [discriminate|]. cbn [orb] in Hc.
+    destruct (has i (tab s KA)) eqn:Hh; [discriminate|]. inversion Hc; subst s1; clear Hc.
+    cbn in Ev. subst v. repeat split.
+    intros l Hl. destruct l; try reflexivity. congruence.
 Qed.
